@@ -168,10 +168,10 @@ def run(tier, rnd, out):
 
 def tables(out, suffix):
     gen = open(os.path.join(lib.COQ, "theories", "Gen", "Extracted.v")).read()
-    rows = dict(((m.group(1), m.group(2)), m.group(3)) for m in re.finditer(r'\("(Switcher\w+)", "(\w+)", (true|false)\)', gen[gen.index("class_accepts :="):gen.index("class_accepts_some")]))
+    rows = dict(((m.group(1), m.group(2)), m.group(3)) for m in re.finditer(r'\("(Switcher\w+)", "(\w+)", (true|false)\)', gen[gen.index("Definition class_accepts "):gen.index("Definition class_accepts_some")]))
     cases = [{"cls": cn, "type": t.name} for cn in CLASS_CAT for t in DeviceType]
     io = [construct(c["cls"], DeviceType[c["type"]]) for c in cases]
-    some = dict(((m.group(1), m.group(2)), m.group(3)) for m in re.finditer(r'\("(Switcher\w+)", "(\w+)", (true|false)\)', gen[gen.index("class_accepts_some"):]))
+    some = dict(((m.group(1), m.group(2)), m.group(3)) for m in re.finditer(r'\("(Switcher\w+)", "(\w+)", (true|false)\)', gen[gen.index("Definition class_accepts_some"):]))
     mo = [{("true", "true"): "accepted", ("false", "false"): "refused"}.get((rows.get((c["cls"], c["type"])), some.get((c["cls"], c["type"]))), "depends on the other fields") for c in cases]
     ex = ["accepted" if DeviceType[c["type"]].category.name == CLASS_CAT[c["cls"]] else "refused" for c in cases]
     lib.differential(out, "class-x-type" + suffix, cases, io, mo, ex, lambda c: "%s(%s)%s" % (c["cls"], c["type"], " [" + DETAIL[(c["cls"], c["type"])] + "]" if (c["cls"], c["type"]) in DETAIL else ""), sample=lambda c: c, classify=lambda c, i: i)
@@ -186,8 +186,8 @@ def tables(out, suffix):
     mo = []
     for t in DeviceType:
         m = re.search(r'\("%s", "[^"]*", "([0-9a-f]*)", (\d)%%N, "(\w+)"\)' % t.name, gen)
-        tp = re.search(r'tcp_port_of_category := \[.*?\("%s", (\d+)%%N\)' % (m.group(3) if m else "?"), gen)
-        up = re.search(r'udp_port_of_category := \[.*?\("%s", (\d+)%%N\)' % (m.group(3) if m else "?"), gen)
+        tp = re.search(r'tcp_port_of_category : [^=]*:= \[.*?\("%s", (\d+)%%N\)' % (m.group(3) if m else "?"), gen)
+        up = re.search(r'udp_port_of_category : [^=]*:= \[.*?\("%s", (\d+)%%N\)' % (m.group(3) if m else "?"), gen)
         mo.append("code-ok=%s proto=%s tcp=%s udp=%s" % (bool(m) and codes.count(m.group(1)) == 1, m.group(2) if m else "?", tp.group(1) if tp else None, up.group(1) if up else None))
     lib.differential(out, "types-and-ports" + suffix, tcases, io, mo, ex, lambda c: "DeviceType." + c["type"], sample=lambda c: c)
     cats = [{"category": c.name} for c in DeviceCategory]
